@@ -419,7 +419,7 @@ def _risky(risk: str, T: _Table, codes) -> bool:
     return False
 
 
-def _drive(view, model, T, codes, g0, g1, risk, tail, after=None):
+def _drive(view, model, T, codes, g0, g1, g2, risk, tail, after=None):
     # the part of the history space this slice is responsible for (range tests on the symbolic codes) ...
     for t in range(len(codes)):
         assume(0 <= codes[t] < len(T.calls))
@@ -428,6 +428,8 @@ def _drive(view, model, T, codes, g0, g1, risk, tail, after=None):
         assume(_in(codes[0], T.group[g0]))
     if g1 >= 0:
         assume(_in(codes[1], T.group[g1]))
+    if g2 >= 0:
+        assume(_in(codes[2], T.group[g2]))
     if tail:
         assume(_risky(risk, T, codes) == (tail == 2))
     # ... then call by call: decode (indexing the table with a symbolic code forks once per entry) and run
@@ -475,7 +477,7 @@ def _args(nmax, nops, vs, cs):
     return list(vs[:nmax]), list(cs[:nops])
 
 
-def _run_mem(src, flt, k, nmax, smin, smax, g0, g1, tail, n, vals, codes, variant=None):
+def _run_mem(src, flt, k, nmax, smin, smax, g0, g1, g2, tail, n, vals, codes, variant=None):
     assume(0 <= n <= nmax)
     f = FILTERS[flt]
     ncols = f["ncols"]
@@ -493,7 +495,7 @@ def _run_mem(src, flt, k, nmax, smin, smax, g0, g1, tail, n, vals, codes, varian
     else:
         view = f["apply"](_build_source(src, vals, n, ncols, k, f["uniq"]), k)
     model = _Model(vals, n, ncols, f["cols"], f["kind"], f["uniq"], yp, variant)
-    return _drive(view, model, _table(f["kind"], smin, smax), codes, g0, g1, _risk_of(src, flt), tail)
+    return _drive(view, model, _table(f["kind"], smin, smax), codes, g0, g1, g2, _risk_of(src, flt), tail)
 
 
 def _risk_of(src_or_strategy: str, flt: str) -> str:
@@ -509,10 +511,10 @@ def _risk_of(src_or_strategy: str, flt: str) -> str:
     return r
 
 
-def h_mem(src: str, flt: str, k: int, nmax: int, nops: int, smin: int, smax: int, g0: int, g1: int, tail: int, n: int,
+def h_mem(src: str, flt: str, k: int, nmax: int, nops: int, smin: int, smax: int, g0: int, g1: int, g2: int, tail: int, n: int,
           v0: int, v1: int, v2: int, v3: int, v4: int, v5: int, c0: int, c1: int, c2: int, c3: int) -> bool:
     vals, codes = _args(nmax, nops, (v0, v1, v2, v3, v4, v5), (c0, c1, c2, c3))
-    return _run_mem(src, flt, k, nmax, smin, smax, g0, g1, tail, n, vals, codes)
+    return _run_mem(src, flt, k, nmax, smin, smax, g0, g1, g2, tail, n, vals, codes)
 
 
 # ------------------------------------------------------------------------------------------
@@ -628,7 +630,7 @@ _WANT = {"default": _cursor.CursorFetchStrategy, "default_yp": _cursor.CursorFet
          "fully": _cursor.FullyBufferedCursorFetchStrategy, "fully_yp": _cursor.FullyBufferedCursorFetchStrategy}
 
 
-def _run_cur(strategy, flt, k, nmax, smin, smax, g0, g1, tail, n, m, vals, codes, variant=None):
+def _run_cur(strategy, flt, k, nmax, smin, smax, g0, g1, g2, tail, n, m, vals, codes, variant=None):
     assume(0 <= n <= nmax)
     f = FILTERS[flt]
     SRV.reset(vals, n, f["uniq"])
@@ -668,7 +670,7 @@ def _run_cur(strategy, flt, k, nmax, smin, smax, g0, g1, tail, n, m, vals, codes
                     return False
             return True
 
-        return _drive(view, model, _cur_table(strategy, f["kind"], smin, smax), codes, g0, g1, _risk_of(strategy, flt), tail, after)
+        return _drive(view, model, _cur_table(strategy, f["kind"], smin, smax), codes, g0, g1, g2, _risk_of(strategy, flt), tail, after)
     finally:
         conn.close()
 
@@ -678,10 +680,11 @@ def _cur_table(strategy, kind, smin, smax) -> _Table:
     return _table(kind, smin, smax, strategy == "default")
 
 
-def h_cur(strategy: str, flt: str, k: int, nmax: int, nops: int, smin: int, smax: int, g0: int, g1: int, tail: int, n: int, m: int,
+def h_cur(strategy: str, flt: str, k: int, nmax: int, nops: int, smin: int, smax: int, g0: int, g1: int, g2: int, tail: int, n: int,
+          m: int,
           v0: int, v1: int, v2: int, v3: int, v4: int, v5: int, c0: int, c1: int, c2: int, c3: int) -> bool:
     vals, codes = _args(nmax, nops, (v0, v1, v2, v3, v4, v5), (c0, c1, c2, c3))
-    return _run_cur(strategy, flt, k, nmax, smin, smax, g0, g1, tail, n, m, vals, codes)
+    return _run_cur(strategy, flt, k, nmax, smin, smax, g0, g1, g2, tail, n, m, vals, codes)
 
 
 # ------------------------------------------------------------------------------------------
@@ -741,9 +744,9 @@ def _slices(configs, cursor=False):
         risk = _risk_of(cfg.get("src", cfg.get("strategy")), cfg["flt"])
         groups = (GROUP_SIZED, GROUP_ROW) if first == "nonterminal" else (GROUP_SIZED, GROUP_ROW, GROUP_CLOSING)
 
-        def add(nops, g0, g1, tail):
+        def add(nops, g0, g1, g2, tail):
             d = dict(cfg)
-            d.update(nops=nops, g0=g0, g1=g1, tail=tail)
+            d.update(nops=nops, g0=g0, g1=g1, g2=g2, tail=tail)
             for i in range(cfg["nmax"], 6):
                 d["v%d" % i] = 0
             for i in range(nops, 4):
@@ -752,19 +755,25 @@ def _slices(configs, cursor=False):
                 d["m"] = 0
             out.append(d)
 
-        add(1, -1, -1, 0)
+        allg = (GROUP_SIZED, GROUP_ROW, GROUP_CLOSING)
+        add(1, -1, -1, -1, 0)
         for nops in range(2, maxops + 1):
             for g0 in groups:
-                for g1 in ((-1,) if nops < 3 else (GROUP_SIZED, GROUP_ROW, GROUP_CLOSING)):
-                    add(nops, g0, g1, 1 if risk else 0)
+                if nops < 3:
+                    add(nops, g0, -1, -1, 1 if risk else 0)
+                else:
+                    for g1 in allg:
+                        for g2 in allg:
+                            add(nops, g0, g1, g2, 1 if risk else 0)
             if risk:
                 if nops < 3:
-                    add(nops, -1 if first == "all" else GROUP_SIZED, -1, 2)
+                    add(nops, -1 if first == "all" else GROUP_SIZED, -1, -1, 2)
                     if first != "all":
-                        add(nops, GROUP_ROW, -1, 2)
+                        add(nops, GROUP_ROW, -1, -1, 2)
                 else:
                     for g0 in groups:
-                        add(nops, g0, -1, 2)
+                        for g1 in allg:
+                            add(nops, g0, g1, -1, 2)
     return out
 
 
@@ -862,8 +871,9 @@ def harnesses(tier: str) -> List[Harness]:
         b["additionally iter/plain (any first call) and iter/uniq1, cursor buffered/plain (first call leaves the result open)"] = _describe(deep)
     META["bounds"][tier] = b
     return [
-        Harness("mem", h_mem, _slices(mem), budget_s=240 if q else 1500),
-        Harness("cur", h_cur, _slices(cur, cursor=True), budget_s=240 if q else 1500),
+        # (budgets are CPU seconds per slice and only a cap)
+        Harness("mem", h_mem, _slices(mem), budget_s=240 if q else 2400, per_path_timeout=10 if q else 30),
+        Harness("cur", h_cur, _slices(cur, cursor=True), budget_s=240 if q else 2400, per_path_timeout=10 if q else 30),
     ]
 
 
@@ -908,8 +918,8 @@ def classify(hname, args, rep):
         b = dict(a)
         b.update(over)
         if hname == "mem":
-            return _holds(_run_mem, b["src"], b["flt"], b["k"], b["nmax"], b["smin"], b["smax"], -1, -1, 0, b["n"], vals, codes, variant)
-        return _holds(_run_cur, b["strategy"], b["flt"], b["k"], b["nmax"], b["smin"], b["smax"], -1, -1, 0, b["n"], b["m"], vals, codes,
+            return _holds(_run_mem, b["src"], b["flt"], b["k"], b["nmax"], b["smin"], b["smax"], -1, -1, -1, 0, b["n"], vals, codes, variant)
+        return _holds(_run_cur, b["strategy"], b["flt"], b["k"], b["nmax"], b["smin"], b["smax"], -1, -1, -1, 0, b["n"], b["m"], vals, codes,
                       variant)
 
     uniq = FILTERS[a["flt"]]["uniq"]
